@@ -1384,7 +1384,11 @@ static int cfg_parse_internal(cfg_t *cfg, int level, int force_state, cfg_opt_t 
 				goto error;
 			}
 
-			opt = cfg_getopt(cfg, cfg_yylval);
+			/* free-form sections create unknown keys below: look them up quietly */
+			if (is_set(CFGF_KEYSTRVAL, cfg->flags))
+				opt = cfg_getopt_leaf(cfg, cfg_yylval);
+			else
+				opt = cfg_getopt(cfg, cfg_yylval);
 			if (!opt) {
 				if (is_set(CFGF_IGNORE_UNKNOWN, cfg->flags)) {
 					state = 10;
